@@ -21,6 +21,10 @@ def e2e(tier):
                 "methods) against zlink's Server with a scripted service over in-memory pipes with driver-chosen chunking")
     _model(chk, "Session", "Session_a.cfg", "correspondence", coverage=False)
     _model(chk, "Session", "Session_pinned.cfg", "server-answers-oneway", expect_violation=True)
+    # an observation beyond the listed properties: replies carry no call id, so an abandoned `more' stream poisons
+    # the next exchange unless the client drains what the abandoned call is still owed
+    _model(chk, "Session", "Session_abandon.cfg", "abandoned-stream-misattributes", expect_violation=True)
+    _model(chk, "Session", "Session_drain.cfg", "abandoned-stream-drained", coverage=False)
     run_family(chk, "session", "prod", ["--seed", seed(), "--n", 6000 if thorough else 600], [ST], "sessions")
     chk.nontrivial = chk.traces_ok
     return chk.finish()
